@@ -74,6 +74,9 @@ class PersistenceLandscaper(BaseEstimator, TransformerMixin):
         self.stop = stop
         self.num_steps = num_steps
         self.flatten = flatten
+        # grid bounds fixed by the user; `fit` learns the others from the data it is given
+        self._fixed_start = start
+        self._fixed_stop = stop
 
     def __repr__(self):
         if self.start is None or self.stop is None:
@@ -94,9 +97,9 @@ class PersistenceLandscaper(BaseEstimator, TransformerMixin):
         """
         # TODO: remove infinities
         _dgm = X[self.hom_deg]
-        if self.start is None:
+        if self._fixed_start is None:
             self.start = min(_dgm, key=itemgetter(0))[0]
-        if self.stop is None:
+        if self._fixed_stop is None:
             self.stop = max(_dgm, key=itemgetter(1))[1]
         return self
 
